@@ -370,7 +370,7 @@ class Interp:
                     return True
                 if not o.open:
                     return False
-                return self.decide("nonempty:" + (o.label or str(v.addr)), [True, False])
+                return self.open_nonempty(o)
             if isinstance(o, AList):
                 if o.items is not None:
                     return len(o.items) > 0
@@ -1088,8 +1088,14 @@ class Interp:
         return out
 
     # ---------------------------------------------------------------- dicts
+    def deep_force(self, v):
+        v = self.force(v)
+        if isinstance(v, Tup):
+            return Tup(tuple(self.deep_force(x) for x in v.items))
+        return v
+
     def dkey(self, d: ADict, k):
-        k = self.force(k)
+        k = self.deep_force(k)
         s = self.strval(k)
         if s is not None:
             return s.upper() if d.upper else s
@@ -1126,9 +1132,21 @@ class Interp:
             return False
         if isinstance(kk, str) and self.canon_key(d, kk) in d.removed:
             return False
+        if self.facts.get(f"nonempty:{d.bases[0]}") is False:
+            return False
         if not isinstance(kk, str):
             return self.decide(f"has:{d.bases[0]}:{kk!r}", [False, True])
         return self.decide(f"has:{d.bases[0]}[{self.canon_key(d, kk)}]", [True, False])
+
+    def open_nonempty(self, d: ADict) -> bool:
+        """Does the unknown part of an open record hold at least one entry?
+        Consistent with the per-key presence facts of the same record."""
+        base = d.bases[0]
+        pre = f"has:{base}["
+        for k, v in self.facts.items():
+            if v is True and k.startswith(pre) and k[len(pre):-1] not in d.removed:
+                return True
+        return self.decide(f"nonempty:{base}", [True, False])
 
     def canon_key(self, d: ADict, kk: str) -> str:
         # value numbers of unknown entries are shared by every view of the same
@@ -1139,15 +1157,14 @@ class Interp:
         kk = self.dkey(d, k)
         if kk in d.entries:
             return d.entries[kk]
-        if d.open and not (isinstance(kk, str) and self.canon_key(d, kk) in d.removed):
+        if d.open and not (isinstance(kk, str) and self.canon_key(d, kk) in d.removed) \
+                and self.facts.get(f"nonempty:{d.bases[0]}") is not False:
             if isinstance(kk, str):
                 ck = self.canon_key(d, kk)
                 name = f"{d.bases[0]}[{ck}]"
                 present = self.decide(f"has:{name}", [True, False])
                 if present:
-                    v = self.open_value(name)
-                    d.entries[kk] = v
-                    return v
+                    return self.open_value(name)
             else:
                 if self.decide(f"has:{d.bases[0]}:{kk!r}", [False, True]):
                     return Unk(f"{d.bases[0]}[{kk!r}]")
